@@ -81,6 +81,26 @@ Theorem C14_order_independent :
 Proof. exact order_independent_proof. Qed.
 Print Assumptions C14_order_independent.
 
+(* MurmurHash64B (the function MurmurHashNative is on 4-byte pointers): always terminates, reads no byte
+   outside the string, yields a 64-bit value; and the dispatch: 64A on 8-byte pointers *)
+Theorem C14_murmur64b_reads_only_input :
+  forall bs extra seed,
+  murmur64b_mem (bs ++ extra) (Z.of_nat (length bs)) seed = murmur64b bs seed /\ murmur64b bs seed <> None.
+Proof. exact murmur64b_reads_only_input_proof. Qed.
+Print Assumptions C14_murmur64b_reads_only_input.
+
+Theorem C14_murmur64b_range :
+  forall bs seed v, murmur64b bs seed = Some v -> 0 <= v < two64.
+Proof. exact murmur64b_range_proof. Qed.
+Print Assumptions C14_murmur64b_range.
+
+Theorem C14_native_dispatch :
+  forall bs seed,
+  murmur_native_for 8 bs seed = Some (murmur64a bs seed) /\ murmur_native_for 4 bs seed = murmur64b bs seed /\
+  murmur_native bs seed = murmur64a bs seed.
+Proof. exact native_dispatch_proof. Qed.
+Print Assumptions C14_native_dispatch.
+
 (* ---- non-vacuity: published test values / concrete data *)
 Example C14_nonvacuous_values :
   bytes_okb [104; 101; 108; 108; 111; 32; 119; 111; 114; 108; 100; 33] = true /\
@@ -101,3 +121,8 @@ Example C14_nonvacuous_order :
   order_independent_hash [[97]; [98; 99]; []] = (murmur64a [97] 0 + murmur64a [98; 99] 0 + murmur64a [] 0) mod two64 /\
   mmhsum_with 2 [1; 2; 3; 4; 5] = murmur64a [5] (murmur64a [3; 4] (murmur64a [1; 2] 0)).
 Proof. vm_compute. repeat split. Qed.
+
+Example C14_nonvacuous_64b :
+  murmur64b [] 0 = Some 0 /\ murmur64b [104; 101; 108; 108; 111; 32; 119; 111; 114; 108; 100; 33] 1 <> None /\
+  murmur64b_mem [97; 98; 99; 100; 101; 255; 255] 5 7 = murmur64b [97; 98; 99; 100; 101] 7.
+Proof. vm_compute. repeat split. discriminate. Qed.
